@@ -1119,7 +1119,14 @@ func (l *channelLink) resolveFwdPkgs(ctx context.Context) error {
 
 	// If any of our reprocessing steps require an update to the commitment
 	// txn, we initiate a state transition to capture all relevant changes.
-	if l.channel.NumPendingUpdates(lntypes.Local, lntypes.Remote) > 0 {
+	// This also covers a signature we still owe for the remote party's
+	// updates: if we acked them with a revocation that was delivered, but
+	// the link went down before the commit_sig was sent in return, the
+	// channel sync finds both sides "in sync", nothing is retransmitted and
+	// nothing else would ever trigger that signature (the batch ticker only
+	// looks at our own pending updates), leaving the remote's updates
+	// uncommitted until we have an update of our own.
+	if l.channel.OweCommitment() {
 		return l.updateCommitTx(ctx)
 	}
 
